@@ -604,4 +604,81 @@ Section Step.
         apply (keep_vm_ok s1); [|exact H1]. apply hset_keep; [rewrite Eca|]; reflexivity.
       + destruct (Hnew Hnin) as (s' & E & H' & _). rewrite E. exact H'.
   Qed.
+
+  (* ---- every instruction ---- *)
+  Theorem step_vm_ok : forall ip s, vm_ok s -> sres_ok (step F bld P reenter ip s).
+  Proof.
+    intros ip0 s Hs. unfold step. cbv zeta.
+    destruct (nth (N.to_nat ip0) (p_code P) 255%N) as [|p] eqn:Eop; [apply binary_op_ok; exact Hs|].
+    do 6 (try destruct p as [p|p|]).
+    all: first
+      [ (apply i_11_ok; exact Hs)
+      | (apply binary_op_ok; exact Hs)
+      | (apply push_next_ok; exact Hs)
+      | (apply i_4_ok; exact Hs) | (apply i_5_ok; exact Hs) | (apply i_6_ok; exact Hs) | (apply i_8_ok; exact Hs)
+      | (apply i_17_ok; exact Hs) | (apply i_18_ok; exact Hs)
+      | (apply i_19_ok; exact Hs) | (apply i_20_ok; exact Hs) | (apply i_21_ok; exact Hs) | (apply i_22_ok; exact Hs)
+      | (apply i_23_ok; exact Hs) | (apply i_27_ok; exact Hs) | (apply i_28_ok; exact Hs)
+      | (apply i_29_30_ok; exact Hs) | (apply i_31_ok; exact Hs) | (apply i_32_ok; exact Hs) | (apply i_33_ok; exact Hs)
+      | (apply i_34_ok; exact Hs) | (apply i_35_ok; exact Hs) | (apply i_36_ok; exact Hs)
+      | (apply i_37_42_ok; exact Hs) | (apply i_38_ok; exact Hs) | (apply i_39_ok; exact Hs) | (apply i_40_ok; exact Hs)
+      | (apply i_41_ok; exact Hs) | (apply i_43_44_ok; exact Hs)
+      | (apply i_45_ok; exact Hs) | (apply i_46_ok; exact Hs)
+      | (destruct (spop s) as [s1 v1] eqn:E; cbn [fst]; ok_close)
+      | exact Hs
+      | exact I ].
+  Qed.
+
+  (* the dispatch loop keeps the invariant *)
+  Lemma loop_vm_ok : forall fuel ip s, vm_ok s -> rres_ok (loop F bld P reenter fuel ip s).
+  Proof.
+    induction fuel as [|f IH]; intros ip s Hs; cbn [loop].
+    - destruct (code_len P <=? ip)%N; [exact Hs|].
+      cbn [st_rem set_rem]. destruct (N.pred (st_rem s) =? 0)%N; [|exact I].
+      cbn [rres_ok]. ok_close.
+    - destruct (code_len P <=? ip)%N; [exact Hs|].
+      cbn [st_rem set_rem]. destruct (N.pred (st_rem s) =? 0)%N; [cbn [rres_ok]; ok_close|].
+      assert (Ht : vm_ok (tick (set_rem s (N.pred (st_rem s))))) by ok_close.
+      pose proof (step_vm_ok ip _ Ht) as H.
+      destruct (step F bld P reenter ip _) as [ip' s'|s'|e ip' s'|a s']; cbn [sres_ok rres_ok] in *; try exact H.
+      apply IH. exact H.
+  Qed.
 End Step.
+
+(* ------------------------------------------------------------------ *)
+(* `run`                                                               *)
+(* ------------------------------------------------------------------ *)
+
+Lemma run_at_vm_ok F bld P max_instr : forall depth ip s,
+  vm_ok s -> rres_ok (run_at F bld P false max_instr depth ip s).
+Proof.
+  induction depth as [|d IH]; intros ip s Hs; cbn [run_at]; [exact I|].
+  unfold run_loop. apply loop_vm_ok; [exact IH|exact Hs].
+Qed.
+
+Lemma fresh_state_vm_ok : vm_ok fresh_state.
+Proof.
+  unfold vm_ok, open_ok, hopen_ok, cap, fresh_state, vs_new.
+  cbn [st_heap st_open st_stack st_calls vdata vcount]. rewrite repeat_length. unfold stack_size.
+  split; [|split; [lia|constructor]].
+  exists []. split; [constructor|]. split; [constructor|]. split; [constructor|].
+  intros a Ha. exfalso. apply Ha. unfold hget. destruct (N.to_nat a); reflexivity.
+Qed.
+
+(* every state in which a run of the VM ends (normally or with an error) is good *)
+Theorem run_vm_ok : forall F bld budget P s o s',
+  vm_ok s -> run F bld budget P s = (o, s') -> (forall a, o <> OAbort a) -> vm_ok s'.
+Proof.
+  intros F bld budget P s o s' Hs Hr Hna. unfold run, run_gen in Hr.
+  destruct (push_frame s _) as [s1|] eqn:E1.
+  2:{ injection Hr as <- <-. exact Hs. }
+  assert (H1 : vm_ok s1).
+  { eapply push_frame_vm_ok; [exact E1|exact Hs|]. cbn. destruct Hs as (_ & Hc & _). lia. }
+  assert (H2 : vm_ok (set_rem s1 (N.of_nat budget))) by ok_close.
+  pose proof (run_at_vm_ok F bld P (N.of_nat budget) max_depth 0 _ H2) as H.
+  unfold finish, outcome_of in Hr.
+  destruct (run_at F bld P false (N.of_nat budget) max_depth 0 _) as [x|e ip x|a x]; cbn [rres_ok] in H.
+  - injection Hr as <- <-. apply vm_ok_set_calls; [exact H|constructor].
+  - injection Hr as <- <-. apply vm_ok_set_calls; [exact H|constructor].
+  - injection Hr as <- <-. exfalso. eapply Hna. reflexivity.
+Qed.
